@@ -155,8 +155,19 @@ func (w *World) run() {
 	curNameSet = w.c.Cfg.NameSet
 	curValExtra = 0
 	cmpClosures = w.c.Cfg.RandSeed%3 != 0
+	curValStored = nil
 	if w.c.Cfg.Framed {
 		curValExtra = 4
+		curValStored = func(v []byte) []byte { return append(append([]byte{}, v...), 0xF0, 0x0D, 0xCA, 0xFE) }
+	}
+	if w.c.Cfg.Masked {
+		curValStored = func(v []byte) []byte {
+			o := make([]byte, len(v))
+			for i, x := range v {
+				o[i] = x ^ 0x5A
+			}
+			return o
+		}
 	}
 	g.VerifResetFreeLists()
 	w.baseG = runtime.NumGoroutine()
@@ -334,6 +345,11 @@ func (w *World) openCopy(f *MemFile, ms *MState) (*g.Store, error) {
 	}()
 	cbs := w.cbs
 	cbs.ItemAlloc, cbs.ItemAddRef, cbs.ItemDecRef = nil, nil, nil
+	if (w.c.Cfg.Framed || w.c.Cfg.Masked) && curValStored == nil {
+		// a file in plain value form (a CopyTo destination: CopyTo creates it without
+		// the source's callbacks) is opened without the representation-changing callbacks
+		cbs.ItemValLength, cbs.ItemValWrite, cbs.ItemValRead = nil, nil, nil
+	}
 	st, err := g.NewStoreEx(f.CloneQuiet(), cbs)
 	if err == nil && st != nil {
 		w.installCmps(st, ms)
